@@ -38,6 +38,20 @@ def mk_sim(rng, argv=None, period=None, start=None):
     return sim
 
 
+def _clamp(x):
+    """JSON integers must fit TLC's 32 bit: values beyond are replaced by a sentinel
+    (only used for the projection logged with a `wild` event, which is not compared)."""
+    if isinstance(x, bool):
+        return x
+    if isinstance(x, int):
+        return x if -2 ** 31 < x < 2 ** 31 else (2000000000 if x > 0 else -2000000000)
+    if isinstance(x, list):
+        return [_clamp(v) for v in x]
+    if isinstance(x, dict):
+        return {k: _clamp(v) for k, v in x.items()}
+    return x
+
+
 class Session:
     """Records events of one application instance."""
 
@@ -62,6 +76,22 @@ class Session:
 
     def tick(self):
         return self._add(self.sim.tick())
+
+    def garbage(self, sock, t, raw, rport=45000):
+        """A datagram that is not a well-formed documented command / message."""
+        e = self.sim.cmd(t, raw, ("127.0.0.1", rport)) if sock == "ctrl" else self.sim.data(t, raw)
+        e["e"] = "garbage"
+        e["sock"] = sock
+        e.setdefault("rport", rport)
+        return self._add(e)
+
+    def wild(self, t, text, rport=45000):
+        """A well-formed command with integers beyond 32 bit."""
+        e = self.sim.cmd(t, text.encode() + b"\0", ("127.0.0.1", rport))
+        e["e"] = "wild"
+        e = self._add(e)
+        e["proj"] = _clamp(e["proj"])
+        return e
 
     def trace(self):
         return dict(id=self.id, cfg=dict(wire=self.sim.cfg(), period=self.sim.period, start=self.sim.start,
@@ -150,11 +180,11 @@ def rand_cmd(rng, ntrx):
         "SETFORMAT %d" % rng.choice([0, 1, 1, 0, 2, 15, 16, -1, 7]),
         "SETPOWER %d" % rng.choice([0, 10, 20, 3, small]), "NOMTXPOWER", "RFMUTE %d" % rng.choice([0, 1, 1, 0, 2, -1]),
         "SETTA %d" % rng.choice([0, 1, 2, 63, -1, 5, -128, 127]),
-        "FAKE_TOA %d %d" % (rng.choice([0, 256, -256, 1000, small]), rng.choice([0, 0, 5, 100])),
+        "FAKE_TOA %d %d" % (rng.choice([0, 256, -256, 1000, small]), rng.choice([0, 0, 5, 100, -1, -7])),
         "FAKE_TOA %d" % small,
         "FAKE_RSSI %d %d" % (rng.choice([-60, -47, -120, -80, -121, -46, small]), rng.choice([0, 0, 3, 10, -1])),
         "FAKE_RSSI %d" % rng.choice([1, -1, 5, -5, small]),
-        "FAKE_CI %d %d" % (rng.choice([90, 0, -30, 1280, -1280, 1281, small]), rng.choice([0, 0, 5, 50])),
+        "FAKE_CI %d %d" % (rng.choice([90, 0, -30, 1280, -1280, 1281, small]), rng.choice([0, 0, 5, 50, -1, -4])),
         "FAKE_CI %d" % small,
         "FAKE_DROP %d" % rng.choice([0, 1, 2, 3, 6, -1]),
         "FAKE_DROP %d %d" % (rng.choice([0, 1, 2, 3, 6, -1]), rng.choice([1, 2, 3, 5, 0, -1])),
